@@ -57,9 +57,18 @@ func newState(v *vrt.Ctx, flagCount uint32) *state.State {
 // writeable flags (6 and up) are set/reset as asked.
 func Refresh(v *vrt.Ctx) {
 	fc := flagCount(v)
-	x, y := v.U32("set"), v.U32("reset")
-	v.Assume(x < fc+8)
-	v.Assume(y < fc+8)
+	nset, nreset := v.Param("nset"), v.Param("nreset")
+	var xs, ys []uint32
+	for i := 0; i < nset; i++ {
+		x := v.U32("set")
+		v.Assume(x < fc+8)
+		xs = append(xs, x)
+	}
+	for i := 0; i < nreset; i++ {
+		y := v.U32("reset")
+		v.Assume(y < fc+8)
+		ys = append(ys, y)
+	}
 	run := func(st *state.State, set, reset []uint32) {
 		rs := app.NewRes()
 		rs.Funcs["f"] = func(ctx context.Context, sym string, input []byte) (resource.Result, error) {
@@ -75,15 +84,28 @@ func Refresh(v *vrt.Ctx) {
 	b := state.NewState(fc)
 	copy(b.Flags, a.Flags)
 	b.Down("root")
-	run(a, []uint32{x}, []uint32{y})
+	run(a, xs, ys)
 	run(b, nil, nil)
-	// expected flag bytes: those of the run without requests, with the reset
-	// then the set applied to writeable flags only (selection without forks)
+	// expected flag bytes: those of the run without requests, with every
+	// writeable reset and then every writeable set applied (selection without
+	// forks); the lists are applied whole, whatever reserved indices they hold
+	terminate := false
+	anyReserved := false
+	for _, x := range xs {
+		terminate = v.Or(terminate, x == state.FLAG_TERMINATE)
+		anyReserved = v.Or(anyReserved, x < 6)
+	}
+	for _, y := range ys {
+		anyReserved = v.Or(anyReserved, y < 6)
+	}
 	for j := range a.Flags {
-		inX := v.And(x/8 == uint32(j), x >= 6)
-		inY := v.And(y/8 == uint32(j), y >= 6)
-		sm := v.IteU8(inX, uint8(1)<<(x%8), 0)
-		rm := v.IteU8(inY, uint8(1)<<(y%8), 0)
+		var sm, rm uint8
+		for _, x := range xs {
+			sm |= v.IteU8(v.And(x/8 == uint32(j), x >= 6), uint8(1)<<(x%8), 0)
+		}
+		for _, y := range ys {
+			rm |= v.IteU8(v.And(y/8 == uint32(j), y >= 6), uint8(1)<<(y%8), 0)
+		}
 		want := (b.Flags[j] &^ rm) | sm
 		got := a.Flags[j]
 		if j == 0 {
@@ -91,7 +113,7 @@ func Refresh(v *vrt.Ctx) {
 			// instruction; TERMINATE (bit 6) stops the run before the HALT,
 			// so WAIT legitimately differs when it was requested
 			want, got = want&0x7f, got&0x7f
-			if x == state.FLAG_TERMINATE {
+			if terminate {
 				v.Assert(got&0x40 != 0, "C06/requested-flag-is-set")
 				v.Cover("C06/set-terminate")
 				continue
@@ -99,10 +121,10 @@ func Refresh(v *vrt.Ctx) {
 		}
 		v.Assert(got == want, "C06/flags-are-exactly-the-writeable-requests")
 	}
-	if x >= 6 {
-		v.Cover("C06/set-writeable")
-	} else {
+	if anyReserved {
 		v.Cover("C06/set-reserved-ignored")
+	} else {
+		v.Cover("C06/set-writeable")
 	}
 }
 
